@@ -1,5 +1,6 @@
 import SsqlVerif.Props.C12
 #print axioms C12.fast_agrees
+#print axioms C12.fast_declines_iff
 #print axioms C12.fast_compound_agrees
 #print axioms C12.evaluate_eq_general
 #print axioms C12.eval_total_bool
